@@ -68,14 +68,17 @@ fn main() {
     match cli() {
         Cmd::Run { ops, out: dir } => { for l in &ops { let (i, v) = eval_line(l, &mut stats); out.push(l.clone(), i, v); } out.write(&dir, "{}"); }
         Cmd::Gen { thorough, seed, out: dir } => {
-            let ngram = if thorough { 1500 } else { 160 };
+            // profile C05: only the grammars built around the idioms (what the optimizer passes produce at run time: searches,
+            // restore-on-error wrappers, concatenated strings, factored and listed repetitions)
+            let c05 = std::env::var("DRV_SEM_PROFILE").as_deref() == Ok("C05");
+            let ngram = if c05 { if thorough { 240 } else { 60 } } else if thorough { 1500 } else { 160 };
             let len = if thorough { 5 } else { 3 };
             let mut rng = Rng::new(seed ^ if EXTRAS { 0xE } else { 0 });
             let mut ninputs = 0u64; let mut distinct = std::collections::HashSet::new();
             let mut feat: BTreeMap<&str, u64> = BTreeMap::new();
             for gi in 0..ngram {
                 let cfg = GenCfg { extras: EXTRAS, guarded: true, stack_ops: gi % 3 != 0, tags: EXTRAS && gi % 4 == 1, max_rules: 5, max_depth: if thorough { 5 } else { 4 }, builtin_names: true, tag_shapes: TAG_SHAPES };
-                let rules = if gi < 60 { gen_grammar_idiom(&mut rng, &cfg, gi) } else { gen_grammar(&mut rng, &cfg) };
+                let rules = if gi < 60 || c05 { gen_grammar_idiom(&mut rng, &cfg, gi) } else { gen_grammar(&mut rng, &cfg) };
                 let srules = show_rules(&rules);
                 for (k, pat) in [("whitespace", "WHITESPACE"), ("comment", "COMMENT"), ("push", "(push "), ("pop", "(id POP"), ("peek_slice", "(peek "), ("neg", "(neg "), ("pos", "(pos "), ("rep", "(rep "), ("atomic_rule", " a ("), ("compound_rule", " c ("), ("nonatomic_rule", " x ("), ("silent_rule", " s ("), ("skip_idiom", "(rep (seq (neg "), ("bounded_rep", "(repm"), ("tag", "(tag "), ("user_builtin_name", "(rule ASCII"), ("insens", "(ins ")] { if srules.contains(pat) { *feat.entry(k).or_default() += 1; } }
                 let alpha = alphabet(&rules);
